@@ -39,6 +39,7 @@
 #include <sys/wait.h>
 #include <omp.h>
 #include <csetjmp>
+#include <cstdint>
 
 using vj::Value;
 typedef long long ll;
@@ -1003,9 +1004,12 @@ struct StepResult
 static sigjmp_buf g_jmp;
 static volatile sig_atomic_t g_armed = 0;
 static volatile sig_atomic_t g_sig = 0;
-static void faultHandler(int sig)
+static void faultHandler(int sig, siginfo_t* info, void*)
 {
-  if (g_armed && sig != SIGABRT)
+  // only a fault at a small address (null array dereferenced) is recovered in place: a fault anywhere else
+  // may have interrupted the allocator (corrupted heap), the process must die and be restarted by its parent
+  bool nullish = (sig == SIGSEGV || sig == SIGBUS) && info != nullptr && (uintptr_t)info->si_addr < (uintptr_t)(1 << 20);
+  if (g_armed && nullish)
   {
     g_armed = 0;
     g_sig = sig;
@@ -1018,8 +1022,8 @@ static void installFaultHandler()
 {
   struct sigaction sa;
   memset(&sa, 0, sizeof sa);
-  sa.sa_handler = faultHandler;
-  sa.sa_flags = SA_NODEFER;
+  sa.sa_sigaction = faultHandler;
+  sa.sa_flags = SA_NODEFER | SA_SIGINFO;
   sigaction(SIGSEGV, &sa, nullptr);
   sigaction(SIGBUS, &sa, nullptr);
   sigaction(SIGFPE, &sa, nullptr);
@@ -1282,6 +1286,7 @@ static int evalIsolated(const Route& rt, const Node& n, const Node& pn, int p, c
   if (pid == 0)
   {
     close(fd[0]);
+    alarm(300);
     g_isolated = true;
     FILE* w = fdopen(fd[1], "w");
     OUT = w;
@@ -1555,6 +1560,7 @@ static int runContained(const std::vector<int>& roots, const std::string& outPat
       for (size_t k = startAt; k < roots.size(); k++)
       {
         *rootPos = (long)k;
+        alarm(900);   // watchdog: a hang is a crash of the marked step
         STATS.clear();
         char* buf = nullptr; size_t len = 0;
         OUT = open_memstream(&buf, &len);
@@ -2166,6 +2172,7 @@ int mainChol(int argc, char** argv)
     if (pid == 0)
     {
       close(fd[0]);
+      alarm(600);
       STATS.clear();
       if (kind == "chol") { runCholDense(c); runCholSparse(c, 1); runCholSparse(c, 0); }
       else if (kind == "lu") runLU(c);
@@ -2457,6 +2464,7 @@ int mainVec(int argc, char** argv)
     if (pid == 0)
     {
       close(fd[0]);
+      alarm(600);
       STATS.clear();
       for (size_t i = b0; i < std::min(total, b0 + batch); i++)
       {
